@@ -8,7 +8,7 @@ Driver for the correspondence streams `kins` / `hprol` (property C05).  Requests
   trunc1   <space> k numrows inverse     -> <matrix>
   thb2hb   <space> | hb2thb <space>      -> <matrix>
   vprol    <space> trunc                 -> <list of matrices>
-  prolto   <spaceC> <spaceF> disp fixed  -> <matrix>   (disp = -1 for inf)
+  prolto   <spaceC> <spaceF> disp old    -> <matrix>   (disp = -1 for inf; old = 1: pre-6ce171d loop bounds)
   lvlw     <space> <coeffs>              -> list of rat lists
   bdmap    <IA> <dims> axis side         -> nat list
 
@@ -85,9 +85,9 @@ def request : P String := do
       let Ps := H.virtualProlongators tr
       pure (" | ".intercalate (toString Ps.length :: Ps.map showMat))
   | "prolto" => do
-      let C ← pSpace; let F ← pSpace; let d ← int; let fixed ← bool
+      let C ← pSpace; let F ← pSpace; let d ← int; let old ← bool
       let disp : Option Nat := if d < 0 then none else some d.toNat
-      pure (showMat (prolongateTo C F disp fixed))
+      pure (showMat (prolongateTo C F disp old))
   | "lvlw" => do
       let H ← pSpace; let c ← list rat
       let arr := c.toArray
